@@ -9,13 +9,18 @@
 package c14
 
 import (
+	"bytes"
 	"encoding/json"
+	"flag"
 	"fmt"
 	"os"
+	"os/exec"
 	"path/filepath"
+	"regexp"
 	"runtime"
 	"runtime/metrics"
 	"sort"
+	"strings"
 	"sync"
 	"testing"
 	"time"
@@ -31,7 +36,18 @@ var R = hx.New("C14")
 
 func TestMain(m *testing.M) {
 	fix.Quiet()
-	os.Exit(R.Main(m))
+	// every scratch directory of this process (fixture keystores, key files under test) lives under one
+	// directory that is removed at exit
+	scratch, err := os.MkdirTemp("", "verif-c14-")
+	if err == nil {
+		os.Setenv("TMPDIR", scratch)
+	}
+	sort.Slice(targets, func(i, j int) bool { return targets[i].name < targets[j].name })
+	code := R.Main(m)
+	if err == nil {
+		os.RemoveAll(scratch)
+	}
+	os.Exit(code)
 }
 
 // Case is one input of one target.
@@ -39,6 +55,8 @@ type Case struct {
 	Target string  `json:"target"`
 	Class  string  `json:"class,omitempty"`
 	Data   gen.Hex `json:"data"`
+	// Isolate: the case kills the process (recorded by a parent); it is replayed in a child process.
+	Isolate bool `json:"isolate,omitempty"`
 }
 
 // target describes one decoder under test.
@@ -133,7 +151,7 @@ var slowMu sync.Mutex
 
 // run evaluates one target on one input: the target's own oracles, the allocation bound and the watchdog.
 func run(tg *target, data []byte) (vs hx.Vs, inconclusive bool) {
-	in := append([]byte(nil), data...)
+	in := clone(data)
 	c := Case{Target: tg.name, Data: data}
 	timer := time.AfterFunc(watchdog, func() {
 		// still running after 10 s: leave a trace of the case (the process may be killed by -test.timeout)
@@ -161,7 +179,23 @@ func run(tg *target, data []byte) (vs hx.Vs, inconclusive bool) {
 			vs.Add("alloc:"+tg.name, "%d bytes allocated while decoding a %d-byte input (bound %d = 64 MiB + 64 x len)", delta, len(data), bound)
 		}
 	}
-	return vs, inconclusive
+	// genuine defects recorded as open findings (no small repair): their class is excluded here, counted, and the
+	// search continues behind them (DESIGN 2.5). R.IsKnown makes the driver print the KNOWN-FINDING line.
+	kept := vs[:0]
+	for _, v := range vs {
+		if _, ok := excludedFindings[v.Sig]; ok {
+			R.IsKnown(v.Sig)
+			R.Class("TestTargets/"+tg.name, "excluded-known:"+v.Sig)
+			continue
+		}
+		kept = append(kept, v)
+	}
+	return kept, inconclusive
+}
+
+// excludedFindings: signature -> what fails (the known_findings.json entries of this property).
+var excludedFindings = map[string]string{
+	sigUnboundParams: "MySQL COM_STMT_EXECUTE with new-params-bound flag 0 (parameters not re-sent, legal on re-execution): Packet.GetBindParameters returns nil BoundValues and the bind observers (HashQuery / TokenizeQuery / QueryDataEncryptor .OnBind) dereference them - nil pointer panic in the client-side handler",
 }
 
 // Check is the property function of a saved case.
@@ -181,15 +215,94 @@ const (
 	thoroughCases = 4000 // per target per shard (16 shards)
 )
 
+// TestTargets runs every target over generated inputs. The targets run in child processes of the test
+// binary (one per fuzz group): a Go fatal error - an allocation request that cannot be satisfied, a stack
+// that exceeds its limit, a concurrent map write - cannot be recovered in-process, and "crash the process"
+// is exactly what the property forbids. The child keeps a trace of the case it is evaluating; when a child
+// dies the parent re-runs that single case in a fresh process and, if it dies again, records the violation
+// fatal:<target> and continues with the remaining targets.
 func TestTargets(t *testing.T) {
+	if os.Getenv(envChild) != "" {
+		t.Skip("parent-only test")
+	}
+	only := onlyFilter()
+	groups := map[string][]string{}
+	var order []string
 	for _, tg := range targets {
-		tg := tg
+		if only != nil && !only.MatchString(tg.name) {
+			continue
+		}
+		if _, ok := groups[tg.group]; !ok {
+			order = append(order, tg.group)
+		}
+		groups[tg.group] = append(groups[tg.group], tg.name)
+	}
+	sort.Strings(order)
+	for _, g := range order {
+		remaining := groups[g]
+		for len(remaining) > 0 {
+			trace := filepath.Join(os.TempDir(), fmt.Sprintf("trace-%s-%d.json", g, os.Getpid()))
+			os.Remove(trace)
+			died, failed, out := spawn("^TestTargetsChild$", map[string]string{envChild: "1", envTargets: strings.Join(remaining, ","), envTrace: trace})
+			if !died {
+				if failed {
+					t.Errorf("group %s: violations recorded by the child (see its output below)\n%s", g, tail(out, 4000))
+				}
+				break
+			}
+			// the child died: which case was it evaluating?
+			var c Case
+			b, err := os.ReadFile(trace)
+			if err != nil || json.Unmarshal(b, &c) != nil || c.Target == "" {
+				R.Note("inconclusive: child process of group %s died without a case trace: %s", g, tail(out, 600))
+				t.Errorf("group %s: child died without a trace\n%s", g, tail(out, 2000))
+				break
+			}
+			test := "TestTargets/" + c.Target
+			c.Isolate = true
+			vs := checkIsolated(c)
+			if len(vs) == 0 {
+				R.Note("inconclusive: child process died while evaluating a %d-byte case of %s but the case alone does not reproduce it: %s", len(c.Data), c.Target, tail(out, 600))
+			}
+			R.Seen(test, c, true, "fatal-confirmation")
+			R.Report(t, test, c, vs) // fails the test for a violation that is not an open known finding
+			// continue behind the target that died
+			idx := -1
+			for i, n := range remaining {
+				if n == c.Target {
+					idx = i
+				}
+			}
+			remaining = remaining[idx+1:]
+		}
+	}
+}
+
+// TestTargetsChild is the body of TestTargets inside a child process.
+func TestTargetsChild(t *testing.T) {
+	if os.Getenv(envChild) == "" {
+		t.Skip("runs only as a child of TestTargets")
+	}
+	if p := os.Getenv(envTrace); p != "" {
+		f, err := os.OpenFile(p, os.O_CREATE|os.O_RDWR|os.O_TRUNC, 0o600)
+		if err == nil {
+			traceFile = f
+			defer f.Close()
+		}
+	}
+	for _, name := range strings.Split(os.Getenv(envTargets), ",") {
+		tg, ok := targetIdx[name]
+		if !ok {
+			t.Fatalf("unknown target %q", name)
+		}
 		t.Run(tg.name, func(t *testing.T) {
 			test := "TestTargets/" + tg.name
 			R.Rule(test, "classes arbitrary | hostile-constant | valid-prefix | edited-valid over the target's valid examples; non-trivial = input passes the decoder's first structural check")
 			hx.Checks(int(float64(quickCases)*tg.weight), int(float64(thoroughCases)*tg.weight))
+			flag.Set("rapid.shrinktime", "5s") // byte strings shrink quickly; the default 30 s per failing target is wasted on the unrepaired tree
 			rapid.Check(t, func(rt *rapid.T) {
 				c := genCase(rt, tg)
+				traceCase(c)
 				vs := Check(c)
 				R.Seen(test, c, tg.nontrivial(c.Data), c.Class)
 				R.Report(rt, test, c, vs)
@@ -198,7 +311,134 @@ func TestTargets(t *testing.T) {
 	}
 }
 
+// TestIsolatedCase evaluates one saved case in this (child) process and writes the verdict to a file.
+func TestIsolatedCase(t *testing.T) {
+	in, out := os.Getenv(envCaseFile), os.Getenv(envResultFile)
+	if in == "" || out == "" {
+		t.Skip("runs only as a child process")
+	}
+	b, err := os.ReadFile(in)
+	if err != nil {
+		t.Fatal(err)
+	}
+	var c Case
+	if err := json.Unmarshal(b, &c); err != nil {
+		t.Fatal(err)
+	}
+	c.Isolate = false
+	vs := Check(c)
+	if vs == nil {
+		vs = hx.Vs{}
+	}
+	res, _ := json.Marshal(vs)
+	if err := os.WriteFile(out, res, 0o600); err != nil {
+		t.Fatal(err)
+	}
+}
+
+const (
+	envChild      = "C14_CHILD"
+	envTargets    = "C14_TARGETS"
+	envTrace      = "C14_TRACE"
+	envCaseFile   = "C14_CASE_FILE"
+	envResultFile = "C14_RESULT_FILE"
+	envOnly       = "C14_ONLY" // development: regular expression selecting targets
+)
+
+func onlyFilter() *regexp.Regexp {
+	if e := os.Getenv(envOnly); e != "" {
+		return regexp.MustCompile(e)
+	}
+	return nil
+}
+
+var traceFile *os.File
+
+// traceCase leaves the case about to be evaluated where the parent finds it if this process dies.
+func traceCase(c Case) {
+	if traceFile == nil {
+		return
+	}
+	b, _ := json.Marshal(c)
+	traceFile.Truncate(0)
+	traceFile.WriteAt(b, 0)
+}
+
+// spawn runs a test of this binary in a child process. died = the process ended in any way other than a
+// normal test exit (0 = pass, 1 = failed tests).
+func spawn(run string, env map[string]string) (died, failed bool, output string) {
+	args := []string{"-test.run", run}
+	skip := false
+	for _, a := range os.Args[1:] {
+		switch {
+		case skip:
+			skip = false
+		case a == "-test.run" || a == "-test.cpuprofile" || a == "-test.memprofile":
+			skip = true
+		case strings.HasPrefix(a, "-test.run=") || strings.HasPrefix(a, "-test.cpuprofile=") || strings.HasPrefix(a, "-test.fuzz") || strings.HasPrefix(a, "-test.v"):
+		default:
+			args = append(args, a)
+		}
+	}
+	cmd := exec.Command(os.Args[0], args...)
+	cmd.Env = os.Environ()
+	for k, v := range env {
+		cmd.Env = append(cmd.Env, k+"="+v)
+	}
+	var buf bytes.Buffer
+	cmd.Stdout, cmd.Stderr = &buf, &buf
+	err := cmd.Run()
+	output = buf.String()
+	if err == nil {
+		return false, false, output
+	}
+	if ee, ok := err.(*exec.ExitError); ok && ee.ExitCode() == 1 && !strings.Contains(output, "fatal error:") && !strings.Contains(output, "\ngoroutine ") {
+		return false, true, output
+	}
+	return true, true, output
+}
+
+// checkIsolated evaluates a case in a fresh child process; a process that dies is the violation fatal:<target>.
+func checkIsolated(c Case) hx.Vs {
+	dir, err := os.MkdirTemp("", "isolated-")
+	if err != nil {
+		return hx.Vs{{Sig: "harness:isolate", Msg: err.Error()}}
+	}
+	defer os.RemoveAll(dir)
+	in, out := filepath.Join(dir, "case.json"), filepath.Join(dir, "result.json")
+	b, _ := json.Marshal(c)
+	os.WriteFile(in, b, 0o600)
+	died, _, output := spawn("^TestIsolatedCase$", map[string]string{envChild: "1", envCaseFile: in, envResultFile: out})
+	if died {
+		return hx.Vs{{Sig: "fatal:" + c.Target, Msg: fmt.Sprintf("the process dies on this %d-byte input (unrecoverable): %s", len(c.Data), fatalLine(output))}}
+	}
+	var vs hx.Vs
+	if rb, err := os.ReadFile(out); err == nil {
+		json.Unmarshal(rb, &vs)
+	}
+	return vs
+}
+
+func fatalLine(out string) string {
+	for _, l := range strings.Split(out, "\n") {
+		if strings.HasPrefix(l, "fatal error:") || strings.HasPrefix(l, "runtime: goroutine stack exceeds") || strings.HasPrefix(l, "panic:") {
+			return l
+		}
+	}
+	return tail(out, 300)
+}
+
+func tail(s string, n int) string {
+	if len(s) > n {
+		return "..." + s[len(s)-n:]
+	}
+	return s
+}
+
 func TestReplay(t *testing.T) {
+	if os.Getenv(envChild) != "" {
+		t.Skip("parent-only test")
+	}
 	h := map[string]hx.ReplayHandler{"TestTargets": replayCase}
 	for _, tg := range targets {
 		h["TestTargets/"+tg.name] = replayCase
@@ -210,6 +450,9 @@ func replayCase(raw json.RawMessage) hx.Vs {
 	var c Case
 	if err := json.Unmarshal(raw, &c); err != nil {
 		return hx.Vs{{Sig: "harness:decode", Msg: err.Error()}}
+	}
+	if c.Isolate {
+		return checkIsolated(c)
 	}
 	return Check(c)
 }
@@ -243,6 +486,14 @@ func fuzzGroup(f *testing.F, group string) {
 			t.Fatalf("violation %s: %s (target %s, input %x)", v.Sig, v.Msg, tg.name, trunc(data[1:], 256))
 		}
 	})
+}
+
+// clone copies b into a slice whose capacity equals its length: a decoder that reads past the end of its
+// input then fails a bounds check instead of silently reading spare capacity.
+func clone(b []byte) []byte {
+	out := make([]byte, len(b))
+	copy(out, b)
+	return out
 }
 
 func trunc(b []byte, n int) []byte {
